@@ -16,6 +16,9 @@ from . import builtins_impl as BI
 from .builtins_impl import used, Generator
 
 
+REGEXES = {"[0-9]+": z3.Plus(z3.Range("0", "9"))}
+
+
 def install(world):
     T = world.builtins
 
@@ -50,6 +53,8 @@ def install(world):
             return int(v)
         if is_sym_real(v):
             used("int(Fraction) truncation")
+            if ex.decide(z3.IsInt(v)):
+                return z3.ToInt(v)
             return z3.If(v >= 0, z3.ToInt(v), -z3.ToInt(-v))
         if isinstance(v, FloatVal):
             r = BI.float_real(v)
@@ -72,6 +77,19 @@ def install(world):
 
     def bin_to_int(ex, s):
         used("int(s, 2)")
+        if isinstance(s, BI.BitStr):
+            if not s.chars:
+                raise PyRaise(ExcVal("ValueError"))
+            tot = z3.IntVal(0)
+            n = len(s.chars)
+            for i, c in enumerate(s.chars):
+                if isinstance(c, str):
+                    if c not in "01":
+                        raise PyRaise(ExcVal("ValueError"))
+                    tot = tot + (1 << (n - 1 - i)) * int(c)
+                else:
+                    tot = tot + z3.If(c, z3.IntVal(1 << (n - 1 - i)), z3.IntVal(0))
+            return tot
         if isinstance(s, str):
             try:
                 return int(s, 2)
@@ -407,6 +425,11 @@ def install(world):
         v = a[0]
         if is_node(v):
             used("id(node) = injective node identity (ordering abstracted by nid)")
+            ids = ex.ghost.setdefault("ids", [])
+            if not any(v.eq(m) for m in ids):
+                for m in ids:
+                    ex.assume((S.nid(v) == S.nid(m)) == (v == m))
+                ids.append(v)
             return S.nid(v)
         raise Unsupported("id() of non-node")
     reg("id", b_id)
@@ -423,6 +446,22 @@ def install(world):
         if ceil:
             return -z3.ToInt(-r)
         return z3.ToInt(r)
+    def re_fullmatch(ex, a, kw):
+        pat, s = a[0], a[1]
+        if isinstance(s, PayloadView):
+            s = BI.resolve_payload(W, ex, s)
+        used("re.fullmatch for the literal patterns listed in builtins_table.REGEXES")
+        if pat not in REGEXES:
+            raise Unsupported("regular expression %r" % (pat,))
+        if isinstance(s, str):
+            import re
+            return re.fullmatch(pat, s) is not None
+        if pat == "[0-9]+":
+            # SMT-LIB: str.to_int(s) >= 0 exactly for the non-empty digit strings
+            return z3.StrToInt(to_str(s)) >= 0
+        return z3.InRe(to_str(s), REGEXES[pat])
+    T["re.fullmatch"] = Builtin("re.fullmatch", re_fullmatch)
+
     T["math.floor"] = Builtin("math.floor", lambda ex, a, kw: b_floor(ex, a, kw, False))
     T["math.ceil"] = Builtin("math.ceil", lambda ex, a, kw: b_floor(ex, a, kw, True))
     T["warnings.warn"] = Builtin("warnings.warn", lambda ex, a, kw: None)
@@ -573,6 +612,13 @@ def install(world):
     # str
     def s_startswith(ex, a, kw):
         used("str.startswith")
+        if isinstance(a[0], BI.BitStr):
+            p = a[1]
+            if not isinstance(p, str):
+                raise Unsupported("startswith with symbolic prefix")
+            if len(p) > len(a[0].chars):
+                return False
+            return BI.bitstr_eq(BI.BitStr(a[0].chars[:len(p)]), p)
         if concrete(a[0]) and concrete(a[1]):
             return a[0].startswith(a[1])
         return z3.PrefixOf(to_str(a[1]), to_str(a[0]))
@@ -620,6 +666,7 @@ def install(world):
     def s_format(ex, a, kw):
         return str_dot_format(ex, a[0], a[1:], kw)
 
+    meth("BitStr", "startswith", s_startswith)
     for tn in ("str",):
         meth(tn, "startswith", s_startswith)
         meth(tn, "endswith", s_endswith)
@@ -654,11 +701,10 @@ def install(world):
             # binary digits, zero padded to `width`; value range decides the length
             if not ex.decide(z3.And(v >= 0, v < (1 << width))):
                 raise Unsupported("binary format: value wider than the pad width")
-            bits = [z3.If(S.pymod(S.pydiv(v, z3.IntVal(1 << i)), z3.IntVal(2)) == 1,
-                          z3.StringVal("1"), z3.StringVal("0")) for i in reversed(range(width))]
-            if not bits:
+            if width == 0:
                 return z3.IntToStr(v)      # width 0: plain '{:b}' of 0 is '0'
-            return z3.Concat(bits) if len(bits) > 1 else bits[0]
+            return BI.BitStr([S.pymod(S.pydiv(v, z3.IntVal(1 << i)), z3.IntVal(2)) == 1
+                              for i in reversed(range(width))])
         if fmt == "{}":
             return BI.to_str_value(W, ex, args[0])
         return Opaque("format")
